@@ -139,4 +139,6 @@ def run(ctx):
     })
     if evals == 0:
         ctx.oblige("run:driver-produced-results", False, out[-500:])
+    # concrete failing inputs first (checklib prints the first five)
+    ctx.violations.sort(key=lambda v: not v["found_input"])
     return ctx.finish()
